@@ -287,7 +287,16 @@ def make_copy(m):
         '.git', 'junit', 'htmlcov', '__pycache__', '.coverage', 'cache', 'examples', 'doc'))
     p = os.path.join(dst, m['file'])
     text = open(p).read()
-    assert text[m['start']:m['end']] == m['old'], (m['id'], 'source changed: run gen again')
+    if text[m['start']:m['end']] != m['old']:
+        # the file changed since the list was generated: look for the same
+        # text on the same line
+        lines = text.split('\n')
+        line_start = sum(len(l) + 1 for l in lines[:m['line'] - 1])
+        pos = text.find(m['old'], max(0, line_start - 5))
+        if pos < 0 or pos > line_start + 400:
+            shutil.rmtree(tmp, ignore_errors=True)
+            return 'stale', None
+        m = dict(m, start=pos, end=pos + len(m['old']))
     text = text[:m['start']] + m['new'] + text[m['end']:]
     try:
         ast.parse(text)
@@ -300,6 +309,8 @@ def make_copy(m):
 
 def run_one(m, jobs, tier='quick'):
     tmp, dst = make_copy(m)
+    if tmp == 'stale':
+        return dict(id=m['id'], verdict='stale')
     if tmp is None:
         return dict(id=m['id'], verdict='syntax-error')
     t0 = time.time()
